@@ -55,7 +55,7 @@ fn main() {
                 "C06" => drive::drive_c06(&t, &mut m, &mut sink),
                 "C07" => {
                     drive::drive_c07_cases(&t, &mut m, &mut sink);
-                    drive2::drive_histories(&t, &mut sink, drive2::Profile::Edits, "fun", &all, t.q(160, 1600), t.q(25, 40), &mut stats);
+                    drive2::drive_histories(&t, &mut sink, drive2::Profile::Edits, "fun", &all, t.q(400, 2400), t.q(25, 40), &mut stats);
                 }
                 "C08" => drive::drive_c08(&t, &mut m, &mut sink),
                 "C09" => drive::drive_c09(&t, &mut m, &mut sink),
@@ -72,7 +72,7 @@ fn main() {
                 "C17" => drive2::drive_c17(&t, &mut sink, &mut stats),
                 "C18" => {
                     let ks = [kinds::Kind::D, kinds::Kind::A];
-                    drive2::drive_histories(&t, &mut sink, drive2::Profile::Cap, "cap", &ks, t.q(200, 2000), t.q(30, 50), &mut stats);
+                    drive2::drive_histories(&t, &mut sink, drive2::Profile::Cap, "cap", &ks, t.q(500, 3000), t.q(30, 50), &mut stats);
                     let fk: Vec<kinds::Kind> = all.iter().copied().filter(|k| k.is_fixed()).collect();
                     drive2::drive_histories(&t, &mut sink, drive2::Profile::Cap, "cap", &fk, t.q(56, 560), t.q(15, 30), &mut stats);
                 }
